@@ -9,7 +9,18 @@ class C08(E1Prop):
     oracle_name = 'c08'
     adversarial_share = 0.7
     nontrivial_tags = ['bunch-accepted']
-    level_text = 'Oracle: every job row accepted by the real _create_jobs has all parents existing, with smaller ids, and its id inside the reserved range of its update; a rejected submission changes no table; at the end of a history no committed job is Pending without a live parent. Inputs: the adversarial stream (missing / later / self parents, ids outside the range, duplicate parents, unknown groups, empty updates) + client-shaped histories.'
+    level_text = ('Lean (Props/C08.lean, after repo fix 604e365e7 = guard specIdsOk in the model): ill_formed_ids_rejected (a bunch with a self / later / '
+                  'non-positive / not-earlier parent id or a job id outside [1, n_jobs] is answered with an error and changes nothing, in any state), '
+                  'rejected_unchanged, witnesses_rejected + witnesses_leave_nothing (the four formerly accepted bunches), accepted_ids_ok / accepted_parent_ids '
+                  '(every reachable state: each job row lies in the id range of its own update, each job_parents row names a positive, strictly smaller id inside '
+                  'a range reserved by an update of the batch), parents_wellFounded (dependency relation acyclic), no_jobs_in_empty_update; the EXISTENCE of the '
+                  'parent row remains refuted at full strength (orphan_parent_accepted, accepted_parents_precede_fails, ill_formed_rejected_fails: child update '
+                  'committed while the earlier update holding the parent was never inserted) and proved under HistWF (accepted_parents_precede_partial). '
+                  'Oracle on the real _create_jobs: every accepted job row has its id inside the reserved range of its update and only parents with smaller, '
+                  'reserved ids; a parent row may be absent only when it belongs to another bunch of the SAME update; a rejected submission changes no table; '
+                  'at the end of a history no committed job is Pending without a live parent. Inputs: the adversarial stream (missing / later / self / zero / '
+                  'own-id / previous-id parents, ids outside and just above the range, duplicate parents, unknown groups, empty updates, parent in an '
+                  'un-inserted earlier update) + client-shaped histories.')
     level_note = ('Partial: the server is harness/minisql (semantics list in trusted_base), every transaction is one atomic step, histories are generated '
                   '(not exhaustive); the Lean model is tied to the code only as far as the compared answers and dumps show. '
                   'Known findings of the unchanged tree are listed in known_findings.json and printed as KNOWN-FINDING.')
